@@ -22,9 +22,11 @@ CONSTANTS Validator,   \* "repaired" | "asFound"
 VARIABLES cfg, pert
 vars == <<cfg, pert>>
 
-Base == [ blocks  |-> << [a |-> "u1", z |-> 5, q |-> 3], [a |-> "u2", z |-> 2, q |-> 0],
-                         [a |-> "pillarC", z |-> 4, q |-> 0], [a |-> "plasmaC", z |-> 0, q |-> 3] >>,
-          supply  |-> [z |-> [total |-> 11, max |-> 20], q |-> [total |-> 6, max |-> 20]],
+\* "o" is a third token: in the base configuration it is neither declared nor given to anybody
+Base == [ blocks  |-> << [a |-> "u1", z |-> 5, q |-> 3, o |-> 0], [a |-> "u2", z |-> 2, q |-> 0, o |-> 0],
+                         [a |-> "pillarC", z |-> 4, q |-> 0, o |-> 0], [a |-> "plasmaC", z |-> 0, q |-> 3, o |-> 0] >>,
+          supply  |-> [z |-> [total |-> 11, max |-> 20], q |-> [total |-> 6, max |-> 20], o |-> [total |-> 0, max |-> 0]],
+          odecl   |-> FALSE,
           pillars |-> <<2, 2>>,
           fusions |-> <<1, 2>> ]
 
@@ -35,22 +37,28 @@ SumSeq(s) == IF s = <<>> THEN 0 ELSE Head(s) + SumSeq(Tail(s))
 Addrs(c) == {c.blocks[i].a : i \in 1..Len(c.blocks)}
 LastIdx(c, a) == CHOOSE i \in 1..Len(c.blocks) : c.blocks[i].a = a /\ \A j \in (i+1)..Len(c.blocks) : c.blocks[j].a # a
 \* the state the builder produces
-Built(c, a, t) == IF a \in Addrs(c) THEN Abs(IF t = "z" THEN c.blocks[LastIdx(c, a)].z ELSE c.blocks[LastIdx(c, a)].q) ELSE 0
+Amt(b, t) == CASE t = "z" -> b.z [] t = "q" -> b.q [] OTHER -> b.o
+Built(c, a, t) == IF a \in Addrs(c) THEN Abs(Amt(c.blocks[LastIdx(c, a)], t)) ELSE 0
 RECURSIVE SumSet(_, _, _)
 SumSet(c, S, t) == IF S = {} THEN 0 ELSE LET a == CHOOSE x \in S : TRUE IN Built(c, a, t) + SumSet(c, S \ {a}, t)
 
 Consistent(c) ==
   /\ \A t \in {"z", "q"} : SumSet(c, Addrs(c), t) = c.supply[t].total /\ c.supply[t].total <= c.supply[t].max
+  /\ IF c.odecl THEN SumSet(c, Addrs(c), "o") = c.supply.o.total /\ c.supply.o.total <= c.supply.o.max
+                ELSE SumSet(c, Addrs(c), "o") = 0                     \* every given token is declared
   /\ Built(c, "pillarC", "z") = SumSeq(c.pillars)
   /\ Built(c, "plasmaC", "q") = SumSeq(c.fusions)
   /\ Built(c, "swapC", "z") = 0 /\ Built(c, "swapC", "q") = 0
 
 \* the validator as found: sums the LISTED amounts (duplicates counted, signs kept), inspects a contract's block only if it finds one,
 \* does not compare total with maximum supply
-ListedSum(c, t) == SumSeq([i \in 1..Len(c.blocks) |-> IF t = "z" THEN c.blocks[i].z ELSE c.blocks[i].q])
+ListedSum(c, t) == SumSeq([i \in 1..Len(c.blocks) |-> Amt(c.blocks[i], t)])
 BlockOf(c, a) == {i \in 1..Len(c.blocks) : c.blocks[i].a = a}
 AcceptedAsFound(c) ==
   /\ \A t \in {"z", "q"} : ListedSum(c, t) = c.supply[t].total
+  \* a declared token must be given to somebody (the validator refuses "declared but not given at all", also with a zero supply)
+  /\ IF c.odecl THEN ListedSum(c, "o") = c.supply.o.total /\ \E i \in 1..Len(c.blocks) : c.blocks[i].o # 0
+                ELSE \A i \in 1..Len(c.blocks) : c.blocks[i].o = 0
   /\ \A i \in BlockOf(c, "pillarC") : c.blocks[i].z = SumSeq(c.pillars) /\ c.blocks[i].q = 0
   /\ \A i \in BlockOf(c, "plasmaC") : c.blocks[i].q = SumSeq(c.fusions) /\ c.blocks[i].z = 0
   /\ \A i \in BlockOf(c, "swapC") : c.blocks[i].z = 0 /\ c.blocks[i].q = 0
@@ -60,6 +68,7 @@ AcceptedRepaired(c) ==
   /\ \A i, j \in 1..Len(c.blocks) : i # j => c.blocks[i].a # c.blocks[j].a
   /\ \A i \in 1..Len(c.blocks) : c.blocks[i].z >= 0 /\ c.blocks[i].q >= 0
   /\ \A t \in {"z", "q"} : c.supply[t].total <= c.supply[t].max
+  /\ (c.odecl => c.supply.o.total <= c.supply.o.max)
   /\ (SumSeq(c.pillars) > 0 => BlockOf(c, "pillarC") # {})
   /\ (SumSeq(c.fusions) > 0 => BlockOf(c, "plasmaC") # {})
 Accepted(c) == IF Validator = "repaired" THEN AcceptedRepaired(c) ELSE AcceptedAsFound(c)
@@ -68,6 +77,8 @@ Remove(s, i) == SubSeq(s, 1, i - 1) \o SubSeq(s, i + 1, Len(s))
 Perturbations ==
   {[k |-> "none", i |-> 0]} \cup
   {[k |-> kk, i |-> ii] : kk \in {"balance+1", "balance-1", "block-removed", "block-duplicated", "block-duplicated-supply-raised", "negative-compensated"}, ii \in 1..Len(Base.blocks)} \cup
+  {[k |-> kk, i |-> ii] : kk \in {"undeclared-token-given", "third-token-declared-and-given"}, ii \in 1..2} \cup
+  {[k |-> kk, i |-> 0] : kk \in {"third-token-declared-nobody-holds-it", "third-token-declared-with-zero-supply"}} \cup
   {[k |-> kk, i |-> 0] : kk \in {"supply+1", "supply-1", "max-below-total", "pillar+1", "pillar-removed", "fusion+1", "fusion-removed", "swap-funded", "swap-funded-supply-raised"}}
 
 Apply(p) ==
@@ -79,6 +90,10 @@ Apply(p) ==
     [] p.k = "block-duplicated" -> [Base EXCEPT !.blocks = Append(b, b[p.i])]
     [] p.k = "block-duplicated-supply-raised" -> [Base EXCEPT !.blocks = Append(b, b[p.i]), !.supply.z.total = @ + b[p.i].z, !.supply.q.total = @ + b[p.i].q]
     [] p.k = "negative-compensated" -> [Base EXCEPT !.blocks[p.i].z = 0 - 1, !.blocks[IF p.i = 1 THEN 2 ELSE 1].z = @ + b[p.i].z + 1]
+    [] p.k = "undeclared-token-given" -> [Base EXCEPT !.blocks[p.i].o = 1]
+    [] p.k = "third-token-declared-and-given" -> [Base EXCEPT !.blocks[p.i].o = 1, !.odecl = TRUE, !.supply.o = [total |-> 1, max |-> 1]]
+    [] p.k = "third-token-declared-nobody-holds-it" -> [Base EXCEPT !.odecl = TRUE, !.supply.o = [total |-> 1, max |-> 1]]
+    [] p.k = "third-token-declared-with-zero-supply" -> [Base EXCEPT !.odecl = TRUE, !.supply.o = [total |-> 0, max |-> 1]]
     [] p.k = "supply+1" -> [Base EXCEPT !.supply.z.total = @ + 1]
     [] p.k = "supply-1" -> [Base EXCEPT !.supply.z.total = @ - 1]
     [] p.k = "max-below-total" -> [Base EXCEPT !.supply.z.max = Base.supply.z.total - 1]
@@ -86,8 +101,8 @@ Apply(p) ==
     [] p.k = "pillar-removed" -> [Base EXCEPT !.pillars = Tail(@)]
     [] p.k = "fusion+1" -> [Base EXCEPT !.fusions[1] = @ + 1]
     [] p.k = "fusion-removed" -> [Base EXCEPT !.fusions = Tail(@)]
-    [] p.k = "swap-funded" -> [Base EXCEPT !.blocks = Append(b, [a |-> "swapC", z |-> 1, q |-> 0])]
-    [] p.k = "swap-funded-supply-raised" -> [Base EXCEPT !.blocks = Append(b, [a |-> "swapC", z |-> 1, q |-> 0]), !.supply.z.total = @ + 1]
+    [] p.k = "swap-funded" -> [Base EXCEPT !.blocks = Append(b, [a |-> "swapC", z |-> 1, q |-> 0, o |-> 0])]
+    [] p.k = "swap-funded-supply-raised" -> [Base EXCEPT !.blocks = Append(b, [a |-> "swapC", z |-> 1, q |-> 0, o |-> 0]), !.supply.z.total = @ + 1]
 
 Init == pert \in Perturbations /\ cfg = Apply(pert)
 Next == UNCHANGED vars
